@@ -227,7 +227,9 @@ class Exec(Executor):
                         return o
                     out.extend(self.bind(self.ev(case.guard, s2), g))
                 else:
-                    out.extend(self.exec_block(case.body, s2))
+                    hb = self.hooks.get("case_body")
+                    summarized = hb(self, stmt, case, s2) if hb is not None else None
+                    out.extend(summarized if summarized is not None else self.exec_block(case.body, s2))
             else:  # nomatch
                 out.extend(self.match_cases(stmt, k + 1, subj, s))
         return out
